@@ -1,16 +1,49 @@
 """C10 -- disassembly is total, lossless and keeps byte offsets."""
 import collections
+import os
 import vlib
 import gen
 
 MANIFEST = {
-    "text": "Coq theorems over a model of disassemble()/InstructionStream::try_from for ALL non-empty byte strings (any length up to 2^32): totality, one entry per byte, byte-exact re-encoding, push immediates never instructions, a PUSH truncated by any number of bytes tolerated, unassigned bytes INVALID. The opcode byte table inside the model is regenerated from the Rust match arms and impl Opcode blocks on every run (table round trip proved by complete enumeration of the 256 byte values); the hand-written state machine is tied to the code by a correspondence run (model vs try_from on the same inputs, evaluated in Coq) and the property predicate is also evaluated directly on the implementation's output. The entry point is anchored on every run (T1b: try_from(&[u8]) is disassemble + the re-encoding assertion with no other early return; the only size limit is u32::MAX), and inputs of 24575 / 24576 / 24577 / 32768 / 65536 bytes are checked for acceptance in both tiers.",
+    "text": "Coq theorems over a model of disassemble()/InstructionStream::try_from for ALL non-empty byte strings (any length up to 2^32): totality, one entry per byte, byte-exact re-encoding, push immediates never instructions, a PUSH truncated by any number of bytes tolerated, unassigned bytes INVALID. The opcode byte table inside the model is regenerated from the Rust match arms and impl Opcode blocks on every run (table round trip proved by complete enumeration of the 256 byte values); the hand-written state machine is tied to the code by a correspondence run (model vs try_from on the same inputs, evaluated in Coq) and the property predicate is also evaluated directly on the implementation's output. The entry point is anchored on every run (T1b: try_from(&[u8]) is disassemble + the re-encoding assertion with no other early return; the only size limit is u32::MAX), and inputs of 24575 / 24576 / 24577 / 32768 / 65536 bytes are checked for acceptance in both tiers. Content must not matter: every byte-array / byte-string literal of the disassembly sources as they are now, plus well-known container and compiler markers (EOF magic, solc preambles, metadata headers, minimal-proxy code), is tried as prefix, suffix, infix and PUSH immediate; the text of `disassemble` around its byte match is pinned by the translator (T1b).",
     "note": "Trusted: Coq kernel + vm_compute; translator T1/T5 (regex over the match arms, impl Opcode blocks, constructor guards); "
             "the harness and generators bound how well model = code is known. Byte strings longer than 2^32 are outside the theorem "
             "(the code rejects them with BytecodeTooLarge).",
     "technique": "Coq proof (induction over the byte string against a token-level spec) over a translated opcode table + hand model; "
                  "differential correspondence evaluated inside Coq",
 }
+
+
+KNOWN_MAGIC = ["ef00", "ef0001", "ef000101", "ef0001010004", "6080604052", "6060604052", "a264697066735822", "a165627a7a72305820",
+               "a2646970667358221220", "363d3d373d3d3d363d73", "5af43d82803e903d91602b57fd5bf3", "fe", "00", "64736f6c6343", "0033",
+               "60806040", "3d602d80600a3d3981f3"]
+
+
+def magic_tokens():
+    """Byte strings mentioned by the sources of the disassembly entry points as they are now, plus well-known markers."""
+    import glob
+    import re
+    toks = set(bytes.fromhex(h) for h in KNOWN_MAGIC)
+    root = vlib.REPO
+    files = [root + "/src/constant.rs", root + "/src/error/disassembly.rs", root + "/src/extractor/mod.rs", root + "/src/extractor/contract.rs"]
+    files += glob.glob(root + "/src/disassembly/*.rs")
+    for f in files:
+        try:
+            src = open(f).read()
+        except OSError:
+            continue
+        src = re.sub(r"#\[cfg\(test\)\].*", "", src, flags=re.S)          # unit tests below the code are not entry-point logic
+        for m in re.finditer(r"\[((?:\s*0x[0-9a-fA-F]{1,2}(?:_?u8)?\s*,?){2,40})\]", src):
+            bs = [int(x, 16) for x in re.findall(r"0x([0-9a-fA-F]{1,2})", m.group(1))]
+            toks.add(bytes(bs))
+        for m in re.finditer(r'b"((?:[^"\\]|\\.){1,40})"', src):
+            try:
+                toks.add(m.group(1).encode("latin-1").decode("unicode_escape").encode("latin-1"))
+            except Exception:
+                pass
+        for m in re.finditer(r'"(?:0x)?((?:[0-9a-fA-F]{2}){2,40})"', src):
+            toks.add(bytes.fromhex(m.group(1)))
+    return sorted(t for t in toks if 1 <= len(t) <= 40)
 
 
 def inputs(ctx):
@@ -70,6 +103,23 @@ def inputs(ctx):
         add(bs, "metadata-lookalike")
     for bs in ([0xa1, 0x5b, 0x00, 0x02], [0x61, 0xa1, 0x5b, 0x00, 0x02]):
         add(bs, "metadata-lookalike")
+    # byte strings that look "special": every byte-array / byte-string / long hex literal that occurs in the sources of the
+    # disassembler, the constants and the extractor entry points AS THEY ARE NOW (a content check added to the entry point
+    # brings its own magic into this dictionary), plus the well-known container / compiler markers; each at the start, at the
+    # end, in the middle and as a PUSH immediate -- the stream is defined by the scan from offset 0 only, whatever the content
+    for tok in magic_tokens():
+        tails = [[], [0x00], [0x5b, 0x00], [0x60], [0x7f] + [0x5b] * 3, [rng.randrange(256) for _ in range(7)],
+                 [rng.randrange(256) for _ in range(40)]]
+        for tl in tails:
+            add(list(tok) + tl, "magic-prefix")
+        add([0x5b] + list(tok), "magic-suffix")
+        add([rng.randrange(256) for _ in range(5)] + list(tok), "magic-suffix")
+        add([0x60, 0x00] + list(tok) + [0x00], "magic-infix")
+        if len(tok) <= 32:
+            add([0x5f + len(tok)] + list(tok) + [0x5b, 0x00], "magic-as-immediate")
+            add([0x5f + len(tok)] + list(tok)[:-1], "magic-as-immediate")
+        for cutn in range(1, len(tok)):
+            add(list(tok)[:cutn], "magic-prefix")
     big = [1000, 3000] if ctx.quick else [1000, 3000, 8000, 24576, 24576]
     for n in big:
         add([rng.randrange(256) for _ in range(n)], "random-large")
